@@ -211,14 +211,56 @@ func firstLine(err error) string {
 }
 
 type enumOutcome struct {
-	ruleCheck           error
-	values, ast         string
-	namedErr, inlineErr error
-	namedV, inlineV     []error
-	panicked            string
+	ruleCheck             error
+	values, ast           string // read before any schema used the rule
+	valuesAfter, astAfter string // read again after the schemas that share the rule object were checked
+	namedErr, inlineErr   error  // scalar schemas
+	named2Err, inline2Err error  // object schemas with two properties that both use the enum
+	namedV, inlineV       []error
+	named2V, inline2V     []error
+	panicked              string
 }
 
-func runEnumCase(ruleText, example, inline string, probes []string) (out enumOutcome, timeout bool) {
+func readRule(e *enum.Enum) (values, ast string) {
+	vv, err := e.Values()
+	if err != nil {
+		values = "ERROR " + err.Error()
+	} else {
+		var parts []string
+		for _, v := range vv {
+			if string(v.Type) == "comment" {
+				continue
+			}
+			parts = append(parts, string(v.Type)+":"+string(v.Value))
+		}
+		values = strings.Join(parts, " | ")
+	}
+	a, err := e.GetAST()
+	if err != nil {
+		ast = "ERROR " + err.Error()
+	} else {
+		var parts []string
+		for _, c := range a.Children {
+			if c.SchemaType == "comment" {
+				continue
+			}
+			parts = append(parts, c.TokenType+"/"+c.SchemaType+":"+c.Value)
+		}
+		ast = a.TokenType + "/" + a.SchemaType + "[" + strings.Join(parts, " | ") + "]"
+	}
+	return
+}
+
+// The four schema texts of one case. The named spellings share ONE rule object (as an API project does).
+func enumSchemas(example, example2, inline string) (named, inl, named2, inl2 string) {
+	named = example + " // {enum: @E}"
+	inl = example + inline
+	named2 = "{\n  \"a\": " + example + ", // {enum: @E}\n  \"b\": " + example2 + " // {enum: @E}\n}"
+	inl2 = "{\n  \"a\": " + example + "," + inline + "\n  \"b\": " + example2 + inline + "\n}"
+	return
+}
+
+func runEnumCase(ruleText, example, example2, inline string, probes []string) (out enumOutcome, timeout bool) {
 	ch := make(chan enumOutcome, 1)
 	go func() {
 		var o enumOutcome
@@ -226,44 +268,37 @@ func runEnumCase(ruleText, example, inline string, probes []string) (out enumOut
 			e := enum.New("@E", ruleText)
 			o.ruleCheck = e.Check()
 			if o.ruleCheck == nil {
-				vv, err := e.Values()
-				if err != nil {
-					o.values = "ERROR " + err.Error()
-				} else {
-					var parts []string
-					for _, v := range vv {
-						if string(v.Type) == "comment" {
-							continue
-						}
-						parts = append(parts, string(v.Type)+":"+string(v.Value))
-					}
-					o.values = strings.Join(parts, " | ")
-				}
-				a, err := e.GetAST()
-				if err != nil {
-					o.ast = "ERROR " + err.Error()
-				} else {
-					var parts []string
-					for _, c := range a.Children {
-						if c.SchemaType == "comment" {
-							continue
-						}
-						parts = append(parts, c.TokenType+"/"+c.SchemaType+":"+c.Value)
-					}
-					o.ast = a.TokenType + "/" + a.SchemaType + "[" + strings.Join(parts, " | ") + "]"
-				}
+				o.values, o.ast = readRule(e)
 			}
-			named := jschema.New("named", example+" // {enum: @E}")
-			o.namedErr = named.AddRule("@E", enum.New("@E", ruleText))
+			tn, ti, tn2, ti2 := enumSchemas(example, example2, inline)
+			named2 := jschema.New("named2", tn2)
+			o.named2Err = named2.AddRule("@E", e)
+			if o.named2Err == nil {
+				o.named2Err = named2.Check()
+			}
+			named := jschema.New("named", tn)
+			o.namedErr = named.AddRule("@E", e)
 			if o.namedErr == nil {
 				o.namedErr = named.Check()
 			}
-			inl := jschema.New("inline", example+inline)
+			inl := jschema.New("inline", ti)
 			o.inlineErr = inl.Check()
+			inl2 := jschema.New("inline2", ti2)
+			o.inline2Err = inl2.Check()
+			if o.ruleCheck == nil {
+				o.valuesAfter, o.astAfter = readRule(e)
+			}
 			if o.namedErr == nil && o.inlineErr == nil {
 				for _, p := range probes {
 					o.namedV = append(o.namedV, named.Validate(jdoc.New("doc", p)))
 					o.inlineV = append(o.inlineV, inl.Validate(jdoc.New("doc", p)))
+				}
+			}
+			if o.named2Err == nil && o.inline2Err == nil {
+				for k, p := range probes {
+					d := "{\"a\": " + p + ", \"b\": " + probes[(k+1)%len(probes)] + "}"
+					o.named2V = append(o.named2V, named2.Validate(jdoc.New("doc", d)))
+					o.inline2V = append(o.inline2V, inl2.Validate(jdoc.New("doc", d)))
 				}
 			}
 			return ""
@@ -276,6 +311,32 @@ func runEnumCase(ruleText, example, inline string, probes []string) (out enumOut
 	case <-time.After(20 * time.Second):
 		return enumOutcome{}, true
 	}
+}
+
+// probeKey: membership key of a probe document: (decoded text, string-or-literal); "" for containers.
+func probeKey(p string) string {
+	p = strings.TrimSpace(p)
+	if strings.HasPrefix(p, "\"") {
+		var s string
+		if stdjson.Unmarshal([]byte(p), &s) != nil {
+			return ""
+		}
+		return "S" + s
+	}
+	if strings.HasPrefix(p, "{") || strings.HasPrefix(p, "[") {
+		return ""
+	}
+	return "L" + p
+}
+
+func isMember(items []item, p string) bool {
+	k := probeKey(p)
+	for _, it := range items {
+		if k != "" && it.key() == k {
+			return true
+		}
+	}
+	return false
 }
 
 func runEnum(rep *vh.Report) {
@@ -329,6 +390,7 @@ func runEnum(rep *vh.Report) {
 		text, ncomments := namedText(r, items)
 		inline := inlineAnnotation(r, items)
 		example := items[r.Intn(len(items))].raw
+		example2 := items[r.Intn(len(items))].raw
 		memberExample := true
 		if r.Intn(8) == 0 {
 			example, memberExample = `"no such value"`, false
@@ -372,7 +434,8 @@ func runEnum(rep *vh.Report) {
 		}
 		probes = ps
 
-		in := fmt.Sprintf("rule @E = enum.New(\"@E\", %q); named = jschema.New(\"named\", %q) + AddRule(\"@E\", rule); inline = jschema.New(\"inline\", %q)", text, example+" // {enum: @E}", example+inline)
+		tn, ti, tn2, ti2 := enumSchemas(example, example2, inline)
+		in := fmt.Sprintf("rule := enum.New(\"@E\", %q); named2 = jschema.New(\"named2\", %q) + AddRule(\"@E\", rule) + Check; named = jschema.New(\"named\", %q) + AddRule(\"@E\", rule) + Check (same rule object); inline = jschema.New(\"inline\", %q); inline2 = jschema.New(\"inline2\", %q)", text, tn2, tn, ti, ti2)
 		rep.Case(in, len(items) >= 2 || ncomments > 0)
 		rep.Stat(fmt.Sprintf("enum_items_%d", len(items)))
 		if ncomments > 0 {
@@ -384,7 +447,7 @@ func runEnum(rep *vh.Report) {
 		if !memberExample {
 			rep.Stat("enum_example_not_member")
 		}
-		o, to := runEnumCase(text, example, inline, probes)
+		o, to := runEnumCase(text, example, example2, inline, probes)
 		if to {
 			rep.AddDiff(vh.Diff{Component: "C18-enum", Input: in, Impl: "TIMEOUT", Model: "terminates"})
 			return
@@ -413,10 +476,16 @@ func runEnum(rep *vh.Report) {
 				rep.AddDiff(vh.Diff{Component: "C18-enum", Input: in, Impl: "GetAST() = " + o.ast, Model: "GetAST() = " + want})
 				continue
 			}
+			// … and again after the schemas sharing the rule object were loaded and checked
+			if o.valuesAfter != o.values || o.astAfter != o.ast {
+				rep.AddDiff(vh.Diff{Component: "C18-enum", Input: in + "; then rule.Values() / rule.GetAST() again", Impl: "Values() = " + o.valuesAfter + " ; GetAST() = " + o.astAfter, Model: "unchanged by the use of the rule: Values() literals = " + o.values + " ; GetAST() = " + o.ast})
+				continue
+			}
 		}
-		// 3. named vs inline: Check verdict
-		if (o.namedErr == nil) != (o.inlineErr == nil) {
-			rep.AddDiff(vh.Diff{Component: "C18-enum", Input: in, Impl: "named " + valid(o.namedErr) + firstLine(o.namedErr) + ", inline " + valid(o.inlineErr) + firstLine(o.inlineErr), Model: "same Check verdict for both spellings"})
+		// 3. named vs inline: Check verdict (scalar schemas, and objects whose two properties use the enum)
+		if (o.namedErr == nil) != (o.inlineErr == nil) || (o.named2Err == nil) != (o.inline2Err == nil) {
+			rep.AddDiff(vh.Diff{Component: "C18-enum", Input: in, Impl: "named " + valid(o.namedErr) + firstLine(o.namedErr) + ", inline " + valid(o.inlineErr) + firstLine(o.inlineErr) +
+				"; named2 " + valid(o.named2Err) + firstLine(o.named2Err) + ", inline2 " + valid(o.inline2Err) + firstLine(o.inline2Err), Model: "same Check verdict for both spellings"})
 			continue
 		}
 		if o.namedErr != nil {
@@ -424,15 +493,130 @@ func runEnum(rep *vh.Report) {
 			continue
 		}
 		rep.Stat("enum_both_accepted")
-		// 4. probes
+		// 4. probes: the two spellings agree, and the verdict is membership by (decoded text, kind) — C02
 		for k, p := range probes {
-			if o.namedV[k] == nil {
-				rep.Stat("enum_probe_accepted")
+			want := isMember(items, p)
+			if want {
+				rep.Stat("enum_probe_member")
 			} else {
-				rep.Stat("enum_probe_rejected")
+				rep.Stat("enum_probe_nonmember")
 			}
 			if (o.namedV[k] == nil) != (o.inlineV[k] == nil) {
 				rep.AddDiff(vh.Diff{Component: "C18-enum", Input: in + fmt.Sprintf("; Validate(json.New(\"doc\", %q))", p), Impl: "named " + valid(o.namedV[k]) + firstLine(o.namedV[k]) + ", inline " + valid(o.inlineV[k]) + firstLine(o.inlineV[k]), Model: "same Validate verdict for both spellings"})
+				break
+			}
+			if (o.inlineV[k] == nil) != want {
+				rep.AddDiff(vh.Diff{Component: "C02-enum", Input: fmt.Sprintf("jschema.New(\"inline\", %q).Validate(json.New(\"doc\", %q))", ti, p), Impl: valid(o.inlineV[k]) + firstLine(o.inlineV[k]), Model: fmt.Sprintf("accepted iff an item has the same decoded text and the same kind: %v", want)})
+				break
+			}
+			if o.named2V != nil {
+				d := "{\"a\": " + p + ", \"b\": " + probes[(k+1)%len(probes)] + "}"
+				want2 := want && isMember(items, probes[(k+1)%len(probes)])
+				if (o.named2V[k] == nil) != (o.inline2V[k] == nil) {
+					rep.AddDiff(vh.Diff{Component: "C18-enum", Input: in + fmt.Sprintf("; Validate(json.New(\"doc\", %q))", d), Impl: "named2 " + valid(o.named2V[k]) + firstLine(o.named2V[k]) + ", inline2 " + valid(o.inline2V[k]) + firstLine(o.inline2V[k]), Model: "same Validate verdict for both spellings"})
+					break
+				}
+				if (o.inline2V[k] == nil) != want2 {
+					rep.AddDiff(vh.Diff{Component: "C02-enum", Input: fmt.Sprintf("jschema.New(\"inline2\", %q).Validate(json.New(\"doc\", %q))", ti2, d), Impl: valid(o.inline2V[k]) + firstLine(o.inline2V[k]), Model: fmt.Sprintf("accepted iff both values are members by (decoded text, kind): %v", want2)})
+					break
+				}
+			}
+		}
+	}
+}
+
+// runEnumTwins — component "C02-enum" (property C02, enum as type-sensitive membership): inline enum lists that
+// hold TWIN items of equal decoded text and different kind (`"1"` and 1, `"null"` and null, `"true"` and true …)
+// in both orders and at any place among filler items; probe documents of both kinds. Demanded: a document is
+// accepted iff some item has the same decoded text AND the same kind.
+func runEnumTwins(rep *vh.Report) {
+	r := vh.NewRand(18003)
+	n := vh.Pick(2000, 60000)
+	lits := []struct{ raw, kind string }{{"1", "integer"}, {"0", "integer"}, {"-1", "integer"}, {"42", "integer"}, {"1.5", "float"}, {"0.0", "float"},
+		{"-2.25", "float"}, {"true", "boolean"}, {"false", "boolean"}, {"null", "null"}}
+	for i := 0; i < n; i++ {
+		var items []item
+		seen := map[string]bool{}
+		add := func(it item) {
+			if !seen[it.key()] {
+				seen[it.key()] = true
+				items = append(items, it)
+			}
+		}
+		pairs := 1 + r.Intn(2)
+		for k := 0; k < pairs; k++ {
+			l := lits[r.Intn(len(lits))]
+			lit := item{raw: l.raw, kind: l.kind, dec: l.raw}
+			str := item{raw: encodeJSONString(r, l.raw, r.Intn(3) == 0), kind: "string", dec: l.raw}
+			if r.Intn(2) == 0 {
+				add(lit)
+				add(str)
+			} else {
+				add(str)
+				add(lit)
+			}
+		}
+		for k := r.Intn(3); k > 0; k-- { // fillers at random places
+			it := genItem(r)
+			if !seen[it.key()] {
+				seen[it.key()] = true
+				at := r.Intn(len(items) + 1)
+				items = append(items[:at:at], append([]item{it}, items[at:]...)...)
+			}
+		}
+		if r.Intn(3) == 0 { // sometimes only the later or the earlier twin stays: membership must follow
+			at := r.Intn(len(items))
+			if len(items) > 1 {
+				items = append(items[:at:at], items[at+1:]...)
+			}
+		}
+		example := items[r.Intn(len(items))].raw
+		schema := example + inlineAnnotation(r, items)
+		var probes []string
+		for _, it := range items {
+			probes = append(probes, it.raw)
+			if it.kind == "string" {
+				probes = append(probes, encodeJSONString(r, it.dec, true))
+				if stdjson.Valid([]byte(it.dec)) && !strings.HasPrefix(it.dec, "\"") && !strings.ContainsAny(it.dec, "[{ ") && it.dec != "" {
+					probes = append(probes, it.dec) // the literal twin
+				}
+			} else {
+				probes = append(probes, strconv.Quote(it.raw)) // the string twin
+			}
+		}
+		for _, l := range lits {
+			if r.Intn(4) == 0 {
+				probes = append(probes, l.raw, strconv.Quote(l.raw))
+			}
+		}
+		rep.Case("twins "+schema, true)
+		rep.Stat(fmt.Sprintf("twins_items_%d", len(items)))
+		var errs []error
+		var checkErr error
+		p := vh.Recover(func() string {
+			s := jschema.New("inline", schema)
+			if checkErr = s.Check(); checkErr != nil {
+				return ""
+			}
+			for _, d := range probes {
+				errs = append(errs, s.Validate(jdoc.New("doc", d)))
+			}
+			return ""
+		})
+		in := fmt.Sprintf("jschema.New(\"inline\", %q)", schema)
+		if p != "" || checkErr != nil {
+			rep.AddDiff(vh.Diff{Component: "C02-enum", Input: in + ".Check()", Impl: p + firstLine(checkErr), Model: "accepted: items are pairwise different by (decoded text, kind) and the example is a member"})
+			continue
+		}
+		for k, d := range probes {
+			want := isMember(items, d)
+			if want {
+				rep.Stat("twins_probe_member")
+			} else {
+				rep.Stat("twins_probe_nonmember")
+			}
+			if (errs[k] == nil) != want {
+				rep.AddDiff(vh.Diff{Component: "C02-enum", Input: in + fmt.Sprintf(".Validate(json.New(\"doc\", %q))", d), Impl: valid(errs[k]) + firstLine(errs[k]), Model: fmt.Sprintf("accepted iff an item has the same decoded text and the same kind: %v", want)})
 				break
 			}
 		}
